@@ -6,6 +6,9 @@
       | (try a) | (try a h) | (arr q) | (reduce src x init upd) | (foreach src x init upd [ext])
       | (label l body) | (break l) | (bind src x body) | (var x) | (call0 f) | (binop o a b)
       | (def f body rest) | (defp f ((pf g) | (pv x) ...) body rest) | (callf f arg...)
+      | (indexq t q)  t[q] | (slice t a b)  t[a:b], an absent bound is (c null)
+      | (bindp src pat body)   pat: (pv x) | (pa pat...) | (po (k hexkey pat) | (kv hexkey x pat) ...)
+      | (obj (k hexkey val) | (q keyquery val) ...)      {k: v, "k": v, k, $x} / {(q): v, $x: v}
    sarg: id | (c v) | (index v) | iter | empty | (call0 f)
    values: null true false (i z) (s hex) (a v...) (o (hexkey v)...) ; ending: end | (val v) | msg *)
 From Coq Require Import List ZArith NArith Bool String.
@@ -43,7 +46,8 @@ Fixpoint enc_val (v : jv) : sexp :=
   end.
 
 Definition dec_fn0 (e : sexp) : option fn0 :=
-  if atom_is "error" e then Some F0Error else if atom_is "length" e then Some F0Length else None.
+  if atom_is "error" e then Some F0Error else if atom_is "length" e then Some F0Length
+  else if atom_is "tostring" e then Some F0ToString else if atom_is "tojson" e then Some F0ToJson else None.
 Definition dec_binop (e : sexp) : option binop :=
   if atom_is "add" e then Some OAdd else if atom_is "sub" e then Some OSub
   else if atom_is "eq" e then Some OEq else if atom_is "ne" e then Some ONe
@@ -52,10 +56,70 @@ Definition dec_binop (e : sexp) : option binop :=
 
 Definition dec_name (e : sexp) : option N := match e with Atom a => parse_N a | _ => None end.
 
+(* patterns: (pv x) | (pa p...) | (po (k hexkey p) | (kv hexkey x p) ...) *)
+Fixpoint dec_pat (e : sexp) : option pattern :=
+  match e with
+  | SList [t; x] => if atom_is "pv" t then option_map PVar (dec_name x) else
+                    if atom_is "pa" t then match dec_pat x with Some p => Some (PArr (ACons p ANil)) | None => None end else
+                    if atom_is "po" t then
+                      match x with
+                      | SList [kd; Atom h; y] =>
+                          if atom_is "k" kd then match parse_hexs h, dec_pat y with Some k, Some p => Some (PObj (OKey k p ONil)) | _, _ => None end
+                          else None
+                      | SList [kd; Atom h; xn; y] =>
+                          if atom_is "kv" kd then match parse_hexs h, dec_name xn, dec_pat y with Some k, Some xv, Some p => Some (PObj (OKeyVar k xv p ONil)) | _, _, _ => None end
+                          else None
+                      | _ => None
+                      end
+                    else None
+  | SList (t :: args) =>
+      if atom_is "pa" t then
+        option_map PArr ((fix go (l : list sexp) : option parr :=
+           match l with
+           | [] => Some ANil
+           | x :: r => match dec_pat x, go r with Some p, Some rr => Some (ACons p rr) | _, _ => None end
+           end) args)
+      else if atom_is "po" t then
+        option_map PObj ((fix go (l : list sexp) : option pobj :=
+           match l with
+           | [] => Some ONil
+           | SList [kd; Atom h; y] :: r =>
+               if atom_is "k" kd then
+                 match parse_hexs h, dec_pat y, go r with Some k, Some p, Some rr => Some (OKey k p rr) | _, _, _ => None end
+               else None
+           | SList [kd; Atom h; xn; y] :: r =>
+               if atom_is "kv" kd then
+                 match parse_hexs h, dec_name xn, dec_pat y, go r with
+                 | Some k, Some xv, Some p, Some rr => Some (OKeyVar k xv p rr) | _, _, _, _ => None end
+               else None
+           | _ => None
+           end) args)
+      else None
+  | _ => None
+  end.
+
 Fixpoint dec_q (e : sexp) : option query :=
   match e with
   | Atom _ => if atom_is "id" e then Some QId else if atom_is "empty" e then Some QEmpty else None
   | SList (t :: args) =>
+      if atom_is "obj" t then
+        option_map QObject
+          ((fix go (l : list sexp) : option (list ((list N + query) * query)) :=
+              match l with
+              | [] => Some []
+              | SList [kind; k; x] :: r =>
+                  match dec_q x, go r with
+                  | Some qv, Some es =>
+                      if atom_is "k" kind then
+                        match k with Atom h => match parse_hexs h with Some s => Some ((inl s, qv) :: es) | None => None end | _ => None end
+                      else if atom_is "q" kind then
+                        match dec_q k with Some kq => Some ((inr kq, qv) :: es) | None => None end
+                      else None
+                  | _, _ => None
+                  end
+              | _ => None
+              end) args)
+      else
       if atom_is "callf" t then
         match args with
         | f :: rest =>
@@ -86,6 +150,7 @@ Fixpoint dec_q (e : sexp) : option query :=
           else if atom_is "try" t then match dec_q x, dec_q y with Some a, Some b => Some (QTry a (Some b)) | _, _ => None end
           else if atom_is "index" t then match dec_q x, dec_val y with Some a, Some k => Some (QIndex a k) | _, _ => None end
           else if atom_is "label" t then match dec_name x, dec_q y with Some l, Some b => Some (QLabel l b) | _, _ => None end
+          else if atom_is "indexq" t then match dec_q x, dec_q y with Some a, Some b => Some (QIndexQ a b) | _, _ => None end
           (* `if c then a end` (e.Else == nil, also at the end of an elif chain): compileIf emits the then-branch, the
              jump over the (absent) else and nothing more -- the code of `else .`, whose compileQuery appends nothing *)
           else if atom_is "ifn" t then match dec_q x, dec_q y with Some c, Some a => Some (QIf c a QId) | _, _ => None end
@@ -95,6 +160,8 @@ Fixpoint dec_q (e : sexp) : option query :=
           else if atom_is "bind" t then match dec_q x, dec_name y, dec_q z with Some s, Some n, Some b => Some (QBind s n b) | _, _, _ => None end
           else if atom_is "binop" t then match dec_binop x, dec_q y, dec_q z with Some o, Some a, Some b => Some (QBinop o a b) | _, _, _ => None end
           else if atom_is "def" t then match dec_name x, dec_q y, dec_q z with Some f, Some b, Some r => Some (QDef f [] b r) | _, _, _ => None end
+          else if atom_is "slice" t then match dec_q x, dec_q y, dec_q z with Some a, Some b, Some c => Some (QSlice a b c) | _, _, _ => None end
+          else if atom_is "bindp" t then match dec_q x, dec_pat y, dec_q z with Some s, Some p, Some b => Some (QBindP s p b) | _, _, _ => None end
           else None
       | [x; SList ps; z; u] =>
           if atom_is "defp" t then
@@ -150,14 +217,20 @@ Definition enc_instr (i : instr) : sexp :=
   | Iindex k => SList [A "index"; enc_val k]
   | Icall (NF0 F0Error) => SList [A "call"; A "error"; A "0"]
   | Icall (NF0 F0Length) => SList [A "call"; A "length"; A "0"]
+  | Icall (NF0 F0ToString) => SList [A "call"; A "tostring"; A "0"]
+  | Icall (NF0 F0ToJson) => SList [A "call"; A "tojson"; A "0"]
   | Icall (NF2 o) => SList [A "call";
         match o with OAdd => A "_add" | OSub => A "_subtract" | OEq => A "_equal" | ONe => A "_notequal"
                    | OLt => A "_less" | OLe => A "_lesseq" | OGt => A "_greater" | OGe => A "_greatereq" end; A "2"]
   | Icall NBreak => SList [A "call"; A "_break"; A "0"]
+  | Icall NIndex2 => SList [A "call"; A "_index"; A "2"]
+  | Icall NSlice3 => SList [A "call"; A "_slice"; A "3"]
   | Iscope id n a => SList [A "scope"; nat_atom id; nat_atom n; nat_atom a]
   | Iret => A "ret" | Iiter => A "iter" | Iexpbegin => A "expbegin" | Iexpend => A "expend"
   | Ipushpc p => SList [A "pushpc"; nat_atom p] | Icallpc => A "callpc"
   | Icallf p => SList [A "call"; nat_atom p] | Icallrec p => SList [A "callrec"; nat_atom p]
+  | Iobject n => SList [A "object"; nat_atom n]
+  | Iindexarray i => SList [A "indexarray"; SList [A "i"; nat_atom i]]
   end.
 
 Definition sexp_eqb (a b : sexp) : bool := list_N_eqb (print a) (print b).
